@@ -78,6 +78,8 @@ pub enum Case {
 pub struct Limits {
     /// per known finding: (build, stack MiB) -> the smallest crashing depth measured by `sim limits-floors`
     pub floors: BTreeMap<String, BTreeMap<(String, u64), u64>>,
+    /// keys of all C20 findings with status known
+    pub listed: std::collections::BTreeSet<String>,
 }
 
 /// A crash is covered by its recorded finding only from this fraction of the recorded depth on.
@@ -88,11 +90,15 @@ const PROBE_NUM: u64 = 80;
 impl Limits {
     pub fn new() -> Limits {
         let mut floors = BTreeMap::new();
+        let mut listed = std::collections::BTreeSet::new();
         let path = format!("{}/known_findings.json", crate::harness::VERIF_DIR);
         if let Ok(txt) = std::fs::read_to_string(path) {
             if let Ok(j) = serde_json::from_str::<J>(&txt) {
                 for f in j["findings"].as_array().cloned().unwrap_or_default() {
                     if f["property"] == "C20" && f["status"] == "known" {
+                        if let Some(k) = f["key"].as_str() {
+                            listed.insert(k.to_string());
+                        }
                         if let (Some(k), Some(d)) = (f["key"].as_str(), f["min_crash_depth"].as_object()) {
                             let mut per = BTreeMap::new();
                             for (build, stacks) in d {
@@ -108,7 +114,7 @@ impl Limits {
                 }
             }
         }
-        Limits { floors }
+        Limits { floors, listed }
     }
 
     /// A recorded finding covers a crash only at or beyond 85 % of the smallest crashing depth recorded
@@ -841,7 +847,10 @@ impl Scenario for Limits {
                     Case::Depth { stack, .. } => *stack,
                     _ => 0,
                 };
-                let class = if !self.floors.contains_key(&key) || self.covered(&key, build, stack, *depth) {
+                // not recorded at all: the plain key (an unlisted violation). Recorded: covered only from 85 % of the
+                // depth recorded for this build and stack on; a recorded finding without such a depth covers nothing.
+                let listed = self.listed.contains(&key);
+                let class = if !listed || self.covered(&key, build, stack, *depth) {
                     key
                 } else {
                     format!("stack_overflow_much_earlier_than_recorded:{op}:{shape}:{build}")
